@@ -1673,4 +1673,38 @@ Lemma ex_shipped_canon :
   map (fun Ek => ex_parsed (fst Ek) (canon_narsese str toy_show (snd Ek) 1 (ex_value_tree (snd Ek)) ex_value))
       [(FORMAT_ASCII, 1%nat); (FORMAT_LATEX, 1%nat); (FORMAT_HAN, 0%nat)] = [Some ex_value; Some ex_value; Some ex_value].
 Proof. split; vm_compute; reflexivity. Qed.
-(*MARK*)
+(* ---------------- interface notes ---------------- *)
+(* TermParses (Model/SstSent.v) written with the cursor invariant of Proofs/EnumTotalP.v: the same statement *)
+Lemma TermParses_wf F is_alnum E unamb :
+  TermParses F is_alnum E unamb <->
+  (forall (t : sterm) (v : term) (k : str) (L : nat) (st : pstate F) (fuel : nat),
+     odesugar t = Some v -> unamb t k = true ->
+     wf F L st -> s_rest st = render E t ++ k -> (sdepth t < fuel)%nat ->
+     p_term F is_alnum E fuel st = POk v (step F (length (render E t)) st)).
+Proof. reflexivity. Qed.
+
+(* sent_unamb from its parts, with the syntactic budget condition: the term's text does not start with
+   the space keyword; a budget is written, or the term's text does not start with its left bracket, or no
+   right budget bracket occurs after that; stamp normal form *)
+Lemma sent_unamb_intro F fread fzero in01 E unamb s :
+  total_ok E = true -> state_facts_ok = true -> budget_requires_close = true -> task_budget_brackets_1 E <> [] ->
+  unamb (sn_term s) (tail0 E s) = true ->
+  starts (space_parse E) (from_term E s) = false ->
+  (sn_budget s <> None \/ starts (task_budget_brackets_0 E) (from_term E s) = false \/
+   no_occ (task_budget_brackets_1 E) (drop (length (task_budget_brackets_0 E)) (from_term E s)) = true) ->
+  match sn_stamp s with
+  | Some (_, x) => nonempty (sentence_stamp_brackets_0 E) || Nat.eqb (ss_sp0 x) 0 = true
+  | None => True
+  end ->
+  sent_unamb F fread fzero in01 E unamb s = true.
+Proof.
+  intros Htot Hfacts Hclose Hrb Hu Hsp Hb Hst. unfold sent_unamb. rewrite Hu, Hsp. cbn [negb andb].
+  apply andb_true_iff. split.
+  - destruct (sn_budget s) as [b|] eqn:Hbud; [reflexivity|].
+    destruct Hb as [Hb|[Hb|Hb]]; [congruence | now rewrite Hb|].
+    apply orb_true_iff. right.
+    apply (budget_attempt_fails_no_close F fread fzero in01 E Htot Hfacts Hclose); auto.
+    unfold render_narsese. rewrite Hbud, app_length. lia.
+  - destruct (sn_stamp s) as [[g x]|]; [exact Hst | reflexivity].
+Qed.
+
